@@ -129,12 +129,17 @@ macro_rules! c07_frechet {
                 let d = match Frechet::<$f>::new(loc, scale, shape) { Ok(d) => d, Err(_) => return };
                 let x: $f = d.sample(&mut rng);
                 vassert!(rng.pos == 1, "Frechet: number of words consumed depends on the parameters");
-                vassert!(flog_n() == 2, "Frechet: expected one logarithm and one power");
-                let (a0, _, r0) = flog_get(0);
-                let (b, e, g) = flog_get(1);
-                vassert!(a0 == $oc(w0) as f64, "Frechet: logarithm is not taken of the OpenClosed01 draw");
-                vassert!(biteq64(b, -r0), "Frechet: base of the power is not -ln(u)");
-                vassert!(e == neg_inv as f64, "Frechet: exponent is not -1/shape");
+                let g: f64 = if native() {
+                    num_traits::Float::powf(-num_traits::Float::ln($oc(w0)), neg_inv) as f64
+                } else {
+                    vassert!(flog_n() == 2, "Frechet: expected one logarithm and one power");
+                    let (a0, _, r0) = flog_get(0);
+                    let (b, e, g) = flog_get(1);
+                    vassert!(a0 == $oc(w0) as f64, "Frechet: logarithm is not taken of the OpenClosed01 draw");
+                    vassert!(biteq64(b, -r0), "Frechet: base of the power is not -ln(u)");
+                    vassert!(e == neg_inv as f64, "Frechet: exponent is not -1/shape");
+                    g
+                };
                 vassert!(biteq64(x as f64, (loc + scale * (g as $f)) as f64), "Frechet: sample is not location + scale * g");
                 kani::cover!(g == 2.0, "g = 2");
             }
